@@ -2,6 +2,7 @@ import Proofs.C01Mux
 import Proofs.C01Monitor
 import Proofs.C01Rx
 import Proofs.C01Own
+import Proofs.C01Refine
 /-!
 # C01 — every response reaches the request that caused it, and only that one (property theorems)
 
@@ -421,5 +422,54 @@ example : ∃ m, MuxOwn.mrun .code (fun _ => MuxOwn.init 128)
      (2, .writeReturned 3), (1, .writeReturned 1), (1, .connDone 1), (2, .answer 1 0 3), (2, .deliver 1)] = some m ∧
     (m 1).pc 1 = .done (.connErr .plain) ∧ (m 1).pc 2 = .done .ctxErr ∧ (m 2).pc 3 = .done (.resp ⟨1, 0, 3⟩) := by
   refine ⟨_, rfl, ?_, ?_, ?_⟩ <;> decide
+
+/-! ## The two machines are one: `Model/MuxOwn.lean` REFINES `Model/Mux.lean` (round 8, `Proofs/C01Refine.lean`)
+
+Mux's `acquire` (GetStream + addCall) is MuxOwn's `register`, `wrote` is `write`; `reserve`, `writeReturned`, `release`,
+`relDone` are stutter steps; a write failure after the bytes were handed over is Mux's `close` + `connDone`. Mux's
+`owner s` is "the call registered under `s` whose id has not been put up for release". -/
+
+/-- REFINEMENT: every run of the machine with the sender's steps, the connection's own requests, the early exits and the
+    two-step releaseStream (code configuration) is matched, action by action (`MuxOwn.trAll`), by a run of the abstract
+    multiplexing machine that ends in a related state and shows the same observable events `req` / `resp` / `got` /
+    `stray` / `event` -/
+theorem C01_own_refines_mux (cap : Nat) (as : List MuxOwn.Act) (st : MuxOwn.St)
+    (h : MuxOwn.run .code (MuxOwn.init cap) as = some st) :
+    ∃ m, Mux.run (Mux.init cap) (MuxOwn.trAll (MuxOwn.init cap) as) = some m ∧ MuxOwn.R st m ∧
+      Mux.trace (Mux.init cap) (MuxOwn.trAll (MuxOwn.init cap) as) = MuxOwn.otrace .code (MuxOwn.init cap) as :=
+  MuxOwn.sim_run as _ st _ (MuxOwn.inv_init cap) (MuxOwn.R_init cap) h
+
+/-- … hence the observation monitor that judges real Session runs accepts the observable projection of every run of
+    the finer machine too (soundness of the monitor, transferred) -/
+theorem C01_own_monitor_sound (cap : Nat) (as : List MuxOwn.Act) (st : MuxOwn.St)
+    (h : MuxOwn.run .code (MuxOwn.init cap) as = some st) :
+    (Mux.Mon.run (Mux.Mon.init cap) (MuxOwn.otrace .code (MuxOwn.init cap) as)).bad = none := by
+  obtain ⟨m, hm, _, ht⟩ := C01_own_refines_mux cap as st h
+  rw [← ht]
+  exact C01_monitor_sound cap _ m hm
+
+/-- … and the routing theorem proved on the abstract machine transfers: what a call of the finer machine is handed is,
+    kind and content, what the peer answered to THAT call (here derived from `C01_routing_content` of Mux through the
+    refinement, not from MuxOwn's own invariant) -/
+theorem C01_own_routing_transferred (cap : Nat) (as : List MuxOwn.Act) (st : MuxOwn.St)
+    (h : MuxOwn.run .code (MuxOwn.init cap) as = some st) (d : Nat) (f : MuxOwn.Frame)
+    (hd : st.pc d = .done (.resp f)) : (st.sent d).map (fun g => (g.kind, g.tag)) = some (f.kind, f.tag) := by
+  obtain ⟨m, hm, r, _⟩ := C01_own_refines_mux cap as st h
+  have := C01_routing_content cap _ m hm d d f.kind f.tag (r.pc_resp d f hd)
+  rw [← r.sent d]; exact this
+
+/-- non-vacuity: a history with a registration, a late Write return, a cancelled call, a reuse of a freed id and an
+    early exit; its Mux counterpart and the common observation stream -/
+def refineHistory : List MuxOwn.Act :=
+  [.reserve 1 1 .user, .register 1, .write 1, .answer 1 0 11, .writeReturned 1, .deliver 1, .release 1,
+   .reserve 2 1 .user, .register 2, .write 2, .writeReturned 2, .relDone 1, .cancel 2,
+   .reserve 3 64 .user, .register 3, .writeCancelled 3, .release 3, .relDone 3, .answer 1 0 22, .deliver 1, .stray 99]
+
+example : MuxOwn.trAll (MuxOwn.init 128) refineHistory =
+    [.acquire 1 1, .wrote 1, .answer 1 0 11, .deliver 1, .acquire 2 1, .wrote 2, .cancel 2, .acquire 3 64,
+     .writeCancelled 3, .answer 1 0 22, .deliver 1, .stray 99] := by rfl
+
+example : MuxOwn.otrace .code (MuxOwn.init 128) refineHistory =
+    [.req 1 1, .resp 1 1 0 11, .got 1 0 11, .req 1 2, .resp 1 2 0 22, .stray 99] := by decide
 
 end C01
